@@ -7,13 +7,13 @@ import sys
 
 VERIF = os.path.dirname(os.path.dirname(os.path.abspath(__file__)))
 
-BASE_TRUST = "Go toolchain, SQLite/go-sqlite3 (atomic single-statement transactions), the reference model in harness/core (150 lines, independently written), the bound stated in the evidence file."
+BASE_TRUST = "Every second shard runs with a non-UTC local time zone. Go toolchain, SQLite/go-sqlite3 (atomic single-statement transactions), the reference model in harness/core (150 lines, independently written), the bound stated in the evidence file."
 
 CHECKS = {
     "C01": dict(
         engine="storewalk",
         technique="explicit-state search over every arrival order of every subset of every header blueprint (N nodes, |W| difficulty values), each transition a real Chains.Add on a SQLite store, oracle = reference tree model",
-        text="Exhaustive within the bound: every history of <=4 (quick) / <=5 (thorough) distinct headers over all tree shapes, orphan patterns, arrival orders and a 2-4 value difficulty alphabet incl. zero/negative targets; every visited store is checked (labels, tip, HTTP cross-read, re-submission, forbidden list) against the model; plus one directed reorganisation of 623 headers. Histories beyond the bound and random generation are not covered.",
+        text="Exhaustive within the bound: every history of <=4 (quick) / <=5 (thorough) distinct headers over all tree shapes, orphan patterns, arrival orders and a 2-4 value difficulty alphabet incl. zero/negative targets; every visited store is checked (labels, tip, HTTP cross-read, re-submission, forbidden list) against the model; plus directed reorganisations of 500 and 623 headers. Histories beyond the bound and random generation are not covered.",
         design="§3 C01",
     ),
     "C02": dict(
@@ -37,7 +37,7 @@ CHECKS = {
     "C08": dict(
         engine="storewalk",
         technique="explicit-state search over reachable header stores; in every store every (batch size 0..len+2) x (start key: empty, every stored root incl. stale/orphan, unknown) page and every complete multi-page walk is served by GET /chain/merkleroot and compared with the reference longest chain",
-        text="Exhaustive within the bound (N<=4 quick, N=5 thorough). Walks interleaved with ingestion are covered by decomposition: a page depends only on (store, key) and every (reachable store, stored root) pair is enumerated, including roots a reorganisation moved off the chain (409 expected); a directed reorganisation of 623 headers is walked completely as well.",
+        text="Exhaustive within the bound (N<=4 quick, N=5 thorough). Walks interleaved with ingestion are covered by decomposition: a page depends only on (store, key) and every (reachable store, stored root) pair is enumerated, including roots a reorganisation moved off the chain (409 expected); directed reorganisations of 500 and 623 headers are walked completely as well.",
         design="§3 C08",
     ),
     "C13": dict(
